@@ -514,24 +514,31 @@ impl ClusterHandler for GenCommHandler<'_> {
                 // current one.)
                 let pase_sess_id =
                     matches!(sess.get_session_mode(), SessionMode::Pase { .. }).then(|| sess.id());
+                let session_mode = sess.get_session_mode().clone();
 
-                let fabric = state
-                    .failsafe
-                    .disarm(sess.get_session_mode(), &mut state.fabrics)?;
+                // Persist the fabric and the network settings FIRST - prior to disarming the
+                // fail-safe and prior to sending the other party a "success" status. If the
+                // store fails the command fails with the fail-safe still armed, so that what
+                // the commissioning staged is rolled back when the fail-safe expires, rather
+                // than staying around in RAM - uncommitted, yet never to be undone.
+                state.failsafe.check_armed(&session_mode)?;
+
+                if let SessionMode::Case { fab_idx, .. } = &session_mode {
+                    persist.store(state.fabrics.fabric(*fab_idx)?)?;
+                    ctx.networks().access(|networks| {
+                        networks.set_managed(true)?;
+
+                        persist
+                            .persist_mut()
+                            .store(NETWORKS_KEY, |buf| networks.save(buf))
+                    })?;
+                }
+
+                state.failsafe.disarm(&session_mode, &mut state.fabrics)?;
 
                 state.pase.close_comm_window(notify_mdns, notify_change)?;
                 state.sessions.remove_pase(pase_sess_id);
                 ctx.exchange().matter().transport().notify_session_removed();
-
-                // Finally, persist the fabric and the network settings, prior to sending the other party a "success" status
-                persist.store(fabric)?;
-                ctx.networks().access(|networks| {
-                    networks.set_managed(true)?;
-
-                    persist
-                        .persist_mut()
-                        .store(NETWORKS_KEY, |buf| networks.save(buf))
-                })?;
 
                 info!("Commissioning complete, fabric and network settings persisted");
 
